@@ -149,7 +149,7 @@ func Gen(pr Profile) func(t *rapid.T) Scenario {
 					local = "x/C"
 				}
 				sc.File.Ctor = "NewFilePathName"
-				sc.File.Args = []recipe.Text{recipe.Text(local), recipe.Text(rapid.SampledFrom([]string{"p", "main", "foo", "d"}).Draw(t, "pkgname"))}
+				sc.File.Args = []recipe.Text{recipe.Text(local), recipe.Text(rapid.SampledFrom([]string{"p", "main", "foo", "d", "d_test", "main_test", "x_test", "_test", "testing", "P", "ünï"}).Draw(t, "pkgname"))}
 			} else {
 				local = rapid.SampledFrom(safeLocal).Draw(t, "local")
 				sc.File.Ctor = "NewFilePath"
